@@ -143,6 +143,16 @@ def run(ctx):
                     ctx.disagree(f"rdm-element-raises:{type(exc).__name__}", f"rdm('{string}') raised {exc}", {**desc, "pattern": string})
                     continue
                 e = parse_c(d.ask(f"expect {norb} {fmt_vec(eb)} {fmt_vec(ek)} {fmt_op([(1.0, term)])}"))
+                # the same element through expectationValue(<numeric string>)
+                try:
+                    got2 = complex(ket.expectationValue(string) if same_bra else ket.expectationValue(string, brawfn=bra))
+                    ctx.count("element:repeated-indices:expectationValue")
+                    if abs(got2.real - float(e[0])) > 1e-9 or abs(got2.imag - float(e[1])) > 1e-9:
+                        ctx.disagree("expectation:numeric-string", f"expectationValue('{string}') = {got2}, exact {e}",
+                                     {**desc, "pattern": string})
+                except Exception as exc:
+                    ctx.disagree(f"expectation-string-raises:{type(exc).__name__}", f"expectationValue('{string}') raised {exc}",
+                                 {**desc, "pattern": string})
                 ctx.case(("element-repeat", case, string))
                 ctx.count("element:repeated-indices")
                 if abs(got.real - float(e[0])) > 1e-9 or abs(got.imag - float(e[1])) > 1e-9:
